@@ -679,6 +679,10 @@ def run_C14(tier, rnd, st, res):
     calls = run_make_family(tier, rnd, st, res)
     run_spellings(tier, rnd, st, res)
     run_serializers(tier, rnd, st, res)
+    # serializer arguments: outcome class of the real serialisers vs the whole-document models (Props/C14Serializers.lean)
+    import ser_model
+    ser_model.correspond_serializers(rnd, tier, st, res)
+    res.notes.append(ser_model.NOTE)
     run_cli(tier, rnd, st, res)
     run_cli_honoured(tier, rnd, st, res)
     res.rule = ('pairwise-complete product + random k-wise rows of boundary / malformed values over all parameters of make, make_qr, make_micro, '
